@@ -40,6 +40,9 @@ class EventManager(Base):
     def remove_handlers_by_keys(self, *a, **k):
         self._rec("remove_handlers_by_keys", a, k)
 
+    def process_event_queue(self, *a, **k):
+        self._rec("process_event_queue", a, k)
+
 
 class DelayManager(Base):
     """records calls; pending-state is derived from the log (delay_state)"""
